@@ -9,7 +9,9 @@ Decided (whole crate, resolved MIR, non-test build, every path):
   R3 no retained state: the crate has no `static mut`, no static with interior mutability, no thread-locals and refers to
      no such static;
   R4 process spawning only in the formatter functions, which are reachable from the entry points only through a call
-     site guarded by the `rustfmt` option.
+     site guarded by the `rustfmt` option;
+  R5 the spawned child is reaped: from the point where the Child exists every path to a normal return passes wait() /
+     wait_with_output() (helpers inlined; the None edge of `stdin.take()?` on a piped stdin is infeasible).
 Not decided: determinism of naga's front end, prettyplease and rustfmt themselves (trusted)."""
 from engine_mir import Mir, op_local, op_place
 from rules.c20 import canon
@@ -297,6 +299,60 @@ def run(rep):
                   f'`rustfmt` option: a process is spawned although the caller did not ask for the formatter',
                   ok_detail=f'{f}: every path from the entry points passes a call site on the true edge of a branch on WriteOptions.rustfmt')
     rep.floor('rustfmt-gated call sites', n_gated, 1)
+    # ---- R5 the spawned formatter is reaped on every path ------------------------------------------------------------
+    # "calls do not modify any state other than spawning the formatter": a Child that is dropped without wait()/wait_with_output() stays
+    # behind as a zombie process.  Pairing rule on the (helper-inlined) formatter functions: from the point where the Child exists, every
+    # path to a normal return passes a wait call.  The None edge of `child.stdin.take()?` is infeasible when stdin was configured as piped.
+    from engine_mir import inlined
+    from mirutil import chain_of
+    spawners = sorted(fn for fn in mir.bodies if any(cname(t) == 'std::process::Command::spawn' for _, t in mir.bodies[fn].calls()))
+    Fp = set()
+    for fn in spawners:
+        Fp |= {x for x in mir.callers_closure({fn}) if x in proc_fns or x == fn}
+    roots = [fn for fn in sorted(Fp) if not any(fn in g.get(o, ()) for o in Fp if o != fn)] or spawners
+    n_spawn = 0
+    for fn in roots:
+        B = inlined(mir, fn, depth=4, skip=[n for n in mir.bodies if n not in Fp])
+        WAITS = ('std::process::Child::wait', 'std::process::Child::wait_with_output')
+        wait_blocks = {bb for bb, t in B.calls() if cname(t) in WAITS}
+        child_locals = {i for i, ty in enumerate(B.locals) if ty == 'std::process::Child'}
+        # blocks where a Child value comes into existence: the Ok/Some payload of the spawn result is moved into a Child local
+        starts = set()
+        for b, blk in enumerate(B.blocks):
+            for st in blk['stmts']:
+                if st['lhs']['l'] in child_locals and not st['lhs']['p'] and st['rv']['rk'] == 'use':
+                    starts.add(b)
+        for bb, t in B.calls():
+            if cname(t) == 'std::process::Command::spawn':
+                n_spawn += 1
+        if not starts:
+            if any(cname(t) == 'std::process::Command::spawn' for _, t in B.calls()):
+                rep.bad('C18.R5.child-reaped', f'child:{fn}', B.where(), 'cannot find where the spawned Child is bound', undecided=True)
+            continue
+        # infeasible early exits: the None edge of a `?` on `child.stdin.take()` (stdin is piped)
+        infeasible = set()
+        piped = any(cname(t) == 'std::process::Command::stdin' for _, t in B.calls()) and any(cname(t) == 'std::process::Stdio::piped' for _, t in B.calls())
+        if piped:
+            for b, blk in enumerate(B.blocks):
+                t = blk['term']
+                if t['k'] == 'switch' and op_local(t['discr']) is not None:
+                    neg, calls, places = chain_of(B, op_local(t['discr']))
+                    names = [cname(c) for c in calls]
+                    if names and names[0].endswith('::branch') and any(n_.endswith('Option::<T>::take') for n_ in names) and \
+                            all(n_.endswith(('::branch', 'Option::<T>::take', 'Option::<T>::as_mut', 'Option::<T>::as_ref')) for n_ in names) and \
+                            any('.stdin' in p_[1] for p_ in places if p_):
+                        for v, tgt in t['targets']:
+                            if v == 1:
+                                infeasible.add(tgt)
+        returns = {b for b, blk in enumerate(B.blocks) if blk['term']['k'] == 'return'}
+        leak = set()
+        for s0 in starts:
+            r = B.reachable_from([s0], avoid=wait_blocks | infeasible)
+            leak |= (r & returns)
+        rep.check(not leak, 'C18.R5.child-reaped', f'child-reaped:{fn}', B.where(sorted(leak)[0] if leak else sorted(starts)[0]),
+                  'a path from the spawn of the formatter to a return passes no wait()/wait_with_output(): the child process is left behind (zombie) - state modified beyond '
+                  '"spawning the formatter when asked"', ok_detail='every return after the spawn is behind wait_with_output()/wait()')
+    rep.floor('formatter spawn sites', n_spawn, 1)
     rep.info['call_sites_scanned'] = n_calls
     rep.info['hash_container_call_sites'] = n_hash_calls
     rep.floor('hash-container call sites seen (membership sets exist in the crate)', n_hash_calls, 4)
